@@ -193,7 +193,7 @@ class TornadoEventLoop(EventLoop):
                 return f(*args, **kwargs)
             except ExitMainLoop:
                 pass  # handled later
-            except Exception as exc:
+            except BaseException as exc:  # pylint: disable=broad-exception-caught  # re-raised by run()
                 self._exc = exc
 
             if self._idle_asyncio_handle:
